@@ -7,12 +7,14 @@ from .. import runner, explore, coll, gen
 from .c09 import run_collection
 
 RULE = ('Every permutation of message lists of n <= N documents (roCreate + messages) whose message IDs have mixed digit '
-        'counts ({9,10,100}, {2,10,1000,99}, {7,70,700,8}, ...), for each of the three constructors (from_strings, '
+        'counts ({9,10,100}, {2,10,1000,99}, {7,70,700,8}, {9,4000000000,2000000000,3}, {7,0,10,100}, ...), for each of the three constructors (from_strings, '
         'from_files, from_s3 with the listing order permuted); plus sorted() / pairwise < on the MosFile objects. Oracle: '
         'reader message IDs ascend numerically for every permutation; one distinct str(mc) per list across all its '
         'permutations, equal to the fold in ascending numeric order. Non-trivial = a permutation other than the sorted one.')
 
 ID_SETS = [
+    (9, 4000000000, 2000000000, 3, 4294967295),      # the whole 32-bit range of a MOS messageID: more than 2**31 apart
+    (7, 0, 10, 100, 3),                              # 0 is a number too (it sorts first)
     (5, 9, 10, 100), (1, 2, 10, 1000, 99), (3, 7, 70, 700, 8), (10, 100, 1000, 99, 9), (1, 11, 2, 21, 3), (8, 9, 10, 11, 12, 101),
     (1, 1000000, 999999, 20, 3),
 ]
@@ -100,7 +102,7 @@ def worker(ns, items, res, opts):
 def run(tier):
     items = []
     nmax = 4 if tier == 'quick' else 6
-    sets = ID_SETS if tier == 'thorough' else ID_SETS[:5]
+    sets = ID_SETS if tier == 'thorough' else ID_SETS[:7]
     for ids in sets:
         for n in range(2, min(len(ids), nmax) + 1):
             sub = tuple(ids[:n])
